@@ -420,8 +420,9 @@ def make_check(tier):
                                 params=dict(target=target, nargs=n, kinds=kinds or ["tiny"], conv_kind="default", adj_kind=adj_kind),
                                 timeout=3000)
         if not quick:
-            chk.add("call/%s/3args/all-int/default/adj-symbolic" % target, h_call,
-                    params=dict(target=target, nargs=3, kinds=["int", "int", "int"], conv_kind="default", adj_kind="symbolic"),
+            k = 2 if target == "arm64" else 3  # the ARM64 immediate loader splits ~17 ways per full-range argument
+            chk.add("call/%s/%dargs/all-int/default/adj-symbolic" % (target, k), h_call,
+                    params=dict(target=target, nargs=k, kinds=["int"] * k, conv_kind="default", adj_kind="symbolic"),
                     timeout=20000)
         for n in ([0, 2, 5] if quick else [0, 1, 2, 4, 5, 8]):
             for conv_kind in ("custom", "custom-shadow"):
@@ -433,7 +434,7 @@ def make_check(tier):
         "targets": "x86-64 ELF, x86-64 PE, IA32 PE, ARM64 ELF",
         "arguments": "0..%d arguments; in each shape one argument (first, last register, first stack slot, last) is an integer over "
                      "the full range [-2^63, 2^64) or a symbol, the others integers in [0, 2^15); all integers through callables; "
-                     "thorough adds three full-range integers at once" % counts[-1],
+                     "thorough adds three (ARM64: two) full-range integers at once" % counts[-1],
         "conventions": "default; custom with 0/1/3 registers, alignment 2^2..2^5, caller/callee cleanup; custom with a shadow space of "
                        "a symbolic number (0..64) of words",
         "prologue": "stack_adjustment: any non-negative multiple of the word size, or None (align_stack); initial stack pointer any value "
